@@ -61,12 +61,12 @@ CHECKS = {
  "C13": dict(
     level="exploration", design="2/C13",
     technique="runtime monitor: component oracle with taint markers over an exhaustive URI component grid plus seeded random URIs",
-    text="Targets are assembled from known components (138240-point grid over scheme x host form x port x user-info x path x query, plus random), user-info and query carry markers; the canonical printer-uri from the helper and from all 9 URI-taking constructors is split by an independent splitter and compared component-wise, the markers must not occur anywhere in the request bytes, canonicalisation must be idempotent, and every judged call is preceded by two look-alike targets (authority case swapped; other credentials, port, query, scheme or path case) so that a result remembered from an earlier call shows. Hosts are compared ASCII-case-insensitively ('the same host').",
+    text="Targets are assembled from known components (138240-point grid over scheme x host form x port x user-info x path x query, plus random), user-info and query carry markers; the canonical printer-uri from the helper and from all 9 URI-taking constructors is split by an independent splitter and compared component-wise, the markers must not occur anywhere in the request bytes, canonicalisation must be idempotent, and every judged call is preceded by three look-alike targets (authority case swapped; other credentials, port, query, scheme or path case; default port spelled out or left out) so that a result remembered from an earlier call shows. Hosts are compared ASCII-case-insensitively ('the same host').",
     note="Targets http::Uri refuses are counted and skipped."),
  "C14": dict(
     level="exploration", design="2/C14",
     technique="runtime monitor at a cfg-guarded hook (verif_transport_url): component oracle over the C13 grid plus random URIs with look-alike pre-calls (history independence); plus a live loopback peer observing request line and Host header of both clients",
-    text="The private mapping the clients use is reached through the add-only hook and compared component-wise with the reference mapping (ipp->http, ipps->https, 631 when no port, explicit port kept, everything else unchanged, http/https untouched) over the full grid and random URIs, each judged call preceded by two look-alike targets so that a mapping remembered from an earlier call shows. The second observation point is live: both clients send to explicit-port targets (ipp/http x three host spellings x four user-info forms x six path/query forms = 288 sends) and the loopback peer must see exactly one request on that port whose request target equals the target's path and query and whose single Host header equals host:port. The port-less ipps -> 443 mapping is a listed known finding with an exact signature; any other discrepancy fails the check.",
+    text="The private mapping the clients use is reached through the add-only hook and compared component-wise with the reference mapping (ipp->http, ipps->https, 631 when no port, explicit port kept, everything else unchanged, http/https untouched) over the full grid and random URIs, each judged call preceded by three look-alike targets (authority case swapped; other credentials / port / query / scheme / path case; default port spelled out or left out) so that a mapping remembered from an earlier call shows; the grid includes option-like queries such as encryption=required. The second observation point is live: both clients send to explicit-port targets (ipp/http x three host spellings x four user-info forms x six path/query forms = 288 sends) and the loopback peer must see exactly one request on that port whose request target equals the target's path and query and whose single Host header equals host:port; a client re-used after an HTTP 426 / 3xx / 4xx / 5xx answer must contact the same URL again. The port-less ipps -> 443 mapping is a listed known finding with an exact signature; any other discrepancy fails the check.",
     note="Hook: --cfg ancwrd1_ipp_rs_verif. Port-less targets cannot be observed live (port 631 is not bindable here); they are covered by the hook."),
 
  "C08": dict(
@@ -77,17 +77,17 @@ CHECKS = {
  "C15": dict(
     level="exploration", design="2/C15",
     technique="runtime cost monitoring on deterministic step measures: counting global allocator (bytes, calls) and cachegrind instruction counts over doubling input families; incremental-ratio oracle",
-    text="31 doubling families plus a hash-flood family (nesting with/without member names and with multi-valued members, set width with one tag, with eight alternating tags at top level and inside a collection member, and with distinct keyword strings, set of collections, one wide collection followed by many small ones, thousands of attributes or members sharing one or three names, a wide set led by thousands of no-value entries, long text / keyword / text-with-language values, a long run of other groups followed by as many operation-group delimiters, attribute/group/member count in ascending, descending and shuffled name order, value/name length, invalid-UTF-8 names and values, four malformed floods), both parsers, sizes 2 KiB to 256 KiB (thorough 1 MiB) for the allocation measure and 4 KiB to 64 KiB (thorough 1 MiB) under cachegrind. For consecutive doublings the incremental ratio (c(4n)-c(2n))/(c(2n)-c(n)) must stay <= 2.6 (n log n passes, quadratic gives 4) and allocated bytes <= 256 KiB + 1024 n. Wall clock is never a verdict; a series stops at its first violating doubling so a quadratic tree is reported at KiB sizes within seconds.",
+    text="31 doubling families plus a hash-flood family (nesting with/without member names and with multi-valued members, set width with one tag, with eight alternating tags at top level and inside a collection member, and with distinct keyword strings, set of collections, one wide collection followed by many small ones, thousands of attributes or members sharing one or three names, a wide set led by thousands of no-value entries, long text / keyword / text-with-language values, a long run of other groups followed by as many operation-group delimiters, attribute/group/member count in ascending, descending and shuffled name order, value/name length, invalid-UTF-8 names and values, four malformed floods), both parsers, sizes 2 KiB to 256 KiB (thorough 1 MiB) for the allocation measure and 4 KiB to 64 KiB (thorough 1 MiB) under cachegrind. With a logger installed that takes every level, the volume the library formats into log records is a third step measure (11 families). Growing reallocs count with their full requested size. For consecutive doublings the incremental ratio (c(4n)-c(2n))/(c(2n)-c(n)) must stay <= 2.6 (n log n passes, quadratic gives 4) and allocated bytes <= 256 KiB + 1024 n. Wall clock is never a verdict; a series stops at its first violating doubling so a quadratic tree is reported at KiB sizes within seconds.",
     note="Instruction counts include process start-up and input generation (linear, cancelled by the incremental ratio). Only the families listed are covered."),
  "C16": dict(
     level="exploration", design="2/C16",
     technique="runtime monitor by complete enumeration of the finite code domains against registry tables embedded in the harness (exhaustive: true)",
-    text="All 65536 16-bit values go through StatusCode::from_u16, IppHeader::status_code, is_success and Operation::from_u16, all 256 bytes through the delimiter and value tag enums, -4..65535 through the five attribute enums, the tag emitted for every value kind is compared with the registry, every value decoded from each of the 256 tag bytes over 74 bodies must be emitted with the same tag, every byte the parser accepts in delimiter position must be reported and re-emitted as itself, and every registered value of the five attribute enums must decode (except 15 finishings the pinned library does not have: unjudged). A registered code must give the variant the registry names for it, any other code 'unknown' or a symbol naming no registered code (a code missing from the harness's tables is unjudged unless its symbol is the registry's name for a different code, so that correct table extensions do not alarm), success for the RFC 8011 successful codes and never for a code above 0x00ff (0x0003-0x00ff left open, as the property does), and every variant must cast back to the integer it was decoded from. The domain is finite and enumerated completely on every run.",
+    text="All 65536 16-bit values go through StatusCode::from_u16, IppHeader::status_code (a fresh header, one header object re-used for every code, and its clone), is_success and Operation::from_u16, all 256 bytes through the delimiter and value tag enums, -4..65535 through the five attribute enums, the tag emitted for every value kind is compared with the registry, every value decoded from each of the 256 tag bytes over 74 bodies must be emitted with the same tag, every byte the parser accepts in delimiter position must be reported and re-emitted as itself, every value tag read by the parser under well-known attribute names must stay that tag, and every registered value of the five attribute enums must decode (except 15 finishings the pinned library does not have: unjudged). A registered code must give the variant the registry names for it, any other code 'unknown' or a symbol naming no registered code (a code missing from the harness's tables is unjudged unless its symbol is the registry's name for a different code, so that correct table extensions do not alarm), success for the RFC 8011 successful codes and never for a code above 0x00ff (0x0003-0x00ff left open, as the property does), and every variant must cast back to the integer it was decoded from. The domain is finite and enumerated completely on every run.",
     note="Trusted: the registry tables typed in from RFC 8010/8011, PWG 5100.1 and the CUPS specification; identifier comparison is modulo case and punctuation with listed aliases."),
  "C17": dict(
     level="exploration", design="2/C17",
     technique="runtime monitor: three-valued reference decision vs is_printer_ready over an exhaustive small grid plus seeded random responses, each judged in memory and after encode->parse",
-    text="Responses over the grid status code x printer-state form x printer-state-reasons form (absent, every single keyword, blocking keyword at every position of sets of 2..6, informational-only sets) x unrelated look-alike attributes and groups are judged against the reference decision (must-error with the same status, must-be-false, must-be-true, unspecified), both built in memory and after reference encoding and library parsing so that the parser decides set versus single value. Thorough adds every one of the 65536 status codes.",
+    text="Responses over the grid status code x printer-state form x printer-state-reasons form (absent, every single keyword, blocking keyword at every position of sets of 2..6, informational-only sets) x unrelated look-alike attributes and groups are judged against the reference decision (must-error with the same status, must-be-false, must-be-true, unspecified), both built in memory (half of them through IppAttributes::add alone, with replaced decoys) and after reference encoding and library parsing so that the parser decides set versus single value. Thorough adds every one of the 65536 status codes.",
     note="Suffix forms of blocking keywords (-warning/-report) and wrong-syntax states without a blocking reason are treated as unspecified, as the property states nothing about them."),
  "C19": dict(
     level="exploration", design="2/C19",
@@ -98,18 +98,18 @@ CHECKS = {
  "C20": dict(
     level="exploration", design="2/C20",
     technique="runtime monitor: differential round-trip oracle through serde_json with the serde feature compiled in (separate harness crate), mirror equality",
-    text="The harness builds ipp with the serde feature (which the repository's suite never compiles), serialises each generated message (payload attached) to JSON and deserialises it through five serde_json carriers (to_string/from_str, to_vec/from_slice, to_writer/from_reader i.e. a non-borrowing deserialiser, to_value/from_value i.e. the tree form, to_string_pretty/from_str) and compares header, groups, names and values with the mirror of what was serialised; the payload must read as empty afterwards. IppAttributes alone and every IppValue alone go through the same round trip. All 22 kinds, raw-octet values, nested collections of every depth 2..20 and beyond wherever serde_json itself accepts the JSON, and boundary lengths are covered by the shapes prefix and seeded random messages.",
+    text="The harness builds ipp with the serde feature (which the repository's suite never compiles), serialises each generated message (payload attached) to JSON and deserialises it through five serde_json carriers (to_string/from_str, to_vec/from_slice, to_writer/from_reader i.e. a non-borrowing deserialiser, to_value/from_value i.e. the tree form, to_string_pretty/from_str) and compares header, groups, names and values with the mirror of what was serialised; the payload must read as empty afterwards. IppAttributes alone and every IppValue alone go through the same round trip; each message is also serialised again after an edit through attributes_mut(). All 22 kinds, raw-octet values, nested collections of every depth 2..20 and beyond wherever serde_json itself accepts the JSON, and boundary lengths are covered by the shapes prefix and seeded random messages.",
     note="JSON (serde_json) as the carrier; a message nested deeper than 20 collection levels is skipped only if serde_json itself refuses the JSON text (decided on the untyped tree, without the library's Deserialize code)."),
 
  "C11": dict(
     level="exploration", design="2/C11",
     technique="runtime monitoring against a live scripted loopback HTTP peer: offline checker over the joined client-call log and peer event log (exactly-once, content equality, error outcomes); fault injection at every cut offset; TSan/ASan layers in thorough",
-    text="Both clients talk to a raw std::net HTTP/1.1 peer that records every connection, request (line, headers, decoded body) and response. Random exchanges cover payloads from 0 B to MiBs from fragmented / interrupted / not-ready sources, response documents up to 3 MB (thorough 17 MB), custom headers, Basic credentials, ipp:// and http:// targets with path and query, and responses under content-length, chunked and close-delimited framing with write fragmentation; every 4xx/5xx status (quick: 20, thorough: all 200) carrying a valid IPP body, a connection cut at every offset inside the response's header+attributes under each framing, and a stalled server with request_timeout must give Err; 16 concurrent senders x 20 sends through one client are matched to their own responses by unique request-id and marker. The checker demands exactly one POST per send with the exact target, Host, Content-Type, headers and credentials and a body that decodes (reference decoder) to exactly the request and payload, and response equality including trailing data.",
+    text="Both clients talk to a raw std::net HTTP/1.1 peer that records every connection, request (line, headers, decoded body) and response. Random exchanges cover payloads from 0 B to MiBs from fragmented / interrupted / not-ready sources, response documents up to 3 MB (thorough 17 MB), custom headers, Basic credentials (incl. empty user / password and credentials replacing earlier ones), requests whose header is changed after a first to_bytes(), ipp:// and http:// targets with path and query, and responses under content-length, chunked and close-delimited framing with write fragmentation; every 4xx/5xx status (quick: 20, thorough: all 200) carrying a valid IPP body, a connection cut at every offset inside the response's header+attributes under each framing, and a stalled server with request_timeout must give Err; 16 concurrent senders x 20 sends through one client are matched to their own responses by unique request-id and marker. The checker demands exactly one POST per send with the exact target, Host, Content-Type, headers and credentials and a body that decodes (reference decoder) to exactly the request and payload, and response equality including trailing data.",
     note="Quick runs the plain-HTTP feature build (no TLS set-up cost per send); thorough repeats the workload on the native-tls and rustls builds. Timeouts judged on outcome only."),
  "C12": dict(
     level="exploration", design="2/C12",
     technique="runtime monitoring of a complete configuration matrix against a loopback rustls peer with freshly generated CAs; oracle on send() outcome and on decrypted bytes seen by the peer application (exhaustive: true)",
-    text="The finite matrix {blocking, async} x {native-tls, rustls} x ignore flag {unset, false, true} x extra root {none, correct PEM, correct DER, correct PEM with CRLF line endings, correct PEM behind its openssl text dump, unrelated} x server certificate {valid, wrong host, expired, self-signed, unknown CA} x a second, tiny Ed25519 root family (DER shorter than 256 bytes and ending in a 0x0a octet) and a leaf that expired seconds before the run = 672 cells on the two uniform builds, plus the two mixed-backend builds (blocking native-tls + async rustls, blocking rustls + async native-tls: a 36-cell sub-matrix each in quick, the full matrix in thorough), the target spelled ipps:// or https:// (quick: one spelling per cell chosen by cell hash and seed; thorough: both) is executed completely on every run (four harness builds: both clients on native-tls, both on rustls, and the two mixed feature sets). A cell must accept exactly when the caller opted out or supplied the correct root for a valid leaf; in every rejected cell the peer application must not have received a single decrypted byte. Thorough repeats the matrix against TLS 1.2-only and 1.3-only peers.",
+    text="The finite matrix {blocking, async} x {native-tls, rustls} x ignore flag {unset, false, true} x extra root {none, correct PEM, correct DER, correct PEM with CRLF line endings, correct PEM behind its openssl text dump, unrelated} x server certificate {valid, wrong host, expired, self-signed, unknown CA} x a second, tiny Ed25519 root family (DER shorter than 256 bytes and ending in a 0x0a octet) and a leaf that expired seconds before the run = 672 cells on the two uniform builds, plus the two mixed-backend builds (blocking native-tls + async rustls, blocking rustls + async native-tls: a 36-cell sub-matrix each in quick, the full matrix in thorough), the target spelled ipps:// or https:// (quick: one spelling per cell chosen by cell hash and seed; thorough: both) is executed completely on every run (four harness builds: both clients on native-tls, both on rustls, and the two mixed feature sets). Builder calls are issued in varying orders with earlier values of the ignore flag. A cell must accept exactly when the caller opted out or supplied the correct root for a valid leaf; in every rejected cell the peer application must not have received a single decrypted byte. Client-reuse sequences: one client object sends to a valid peer whose certificate is then exchanged on the same port (session cache kept) for an expired / wrong-host / valid one; the second send must be refused / refused / accepted. Thorough repeats the matrix against TLS 1.2-only and 1.3-only peers.",
     note="Certificates are generated with the openssl CLI at check time; trust decisions are those of the OpenSSL / rustls versions in this image."),
  "C18": dict(
     level="exploration", design="2/C18",
